@@ -38,10 +38,68 @@ def case(seed):
 
 # ------------------------------------------------------------------ replay on the real compiled tomtom
 
+def _replay_extra(r):
+    import numpy
+    import torch
+    from tangermeme.tools.tomtom import tomtom
+    rs = numpy.random.RandomState(0)
+    if r["mode"] in ("nearest_sym", "nearest"):
+        noisy = lambda x, eps: (lambda y: y / y.sum(0, keepdims=True))((1 - eps) * x + eps * rs.dirichlet([1.0] * 4, size=x.shape[1]).T)
+        embed = lambda x, a, b: numpy.concatenate([rs.dirichlet([0.5] * 4, size=a).T, x, rs.dirichlet([0.5] * 4, size=b).T], axis=1)
+        queries = [rs.dirichlet([0.2] * 4, size=L).T for L in (12, 7, 15)]
+        targets = [embed(noisy(queries[0], eps), a, b) for eps in (0.25, 0.3, 0.35, 0.4, 0.45, 0.5) for (a, b) in ((0, 0), (2, 2), (8, 8), (0, 15))]
+        targets += [rs.dirichlet([0.3] * 4, size=rs.randint(5, 20)).T for _ in range(6)]
+        for kw in (dict(), dict(reverse_complement=False, n_target_bins=None)):
+            full = tomtom(queries, targets, **kw).numpy()
+            for n in (1, 2, 3, 5, 8, 12, len(targets)):
+                nn_ = tomtom(queries, targets, n_nearest=n, **kw).numpy()
+                for i in range(len(queries)):
+                    p, idxs = nn_[0, i], nn_[5, i].astype(int)
+                    if not numpy.array_equal(p, numpy.sort(full[0, i])[:n]):
+                        return True, "n_nearest=%d: returned p-values %s are not the %d smallest of the full row in ascending order %s" % (n, p[:4], n, numpy.sort(full[0, i])[:4])
+                    if len(set(idxs.tolist())) != n or any(not numpy.array_equal(nn_[f, i], full[f, i, idxs]) for f in range(5)):
+                        return True, "n_nearest=%d: fields do not belong to the reported target indices" % n
+        return False, "ok"
+    if r["mode"] == "many":
+        many = [rs.dirichlet([1, 1, 1, 1], size=1 + (k % 2)).T for k in range(r["n_queries"])]
+        ts_ = [rs.dirichlet([1, 1, 1, 1], size=3).T, rs.dirichlet([1, 1, 1, 1], size=2).T]
+        for nj in (1, 2):
+            full = tomtom(many, ts_, n_jobs=nj, reverse_complement=False, n_target_bins=None).numpy()
+            for k in r["probe"]:
+                alone = tomtom([many[k]], ts_, n_jobs=1, reverse_complement=False, n_target_bins=None).numpy()
+                if not numpy.array_equal(full[:, k], alone[:, 0]):
+                    return True, "query %d of %d (n_jobs=%d) differs from the same query processed alone" % (k, len(many), nj)
+        return False, "ok"
+    if r["mode"] == "annotate":
+        import pandas
+        from tangermeme.annotate import annotate_seqlets
+        motifs = {"m%d" % i: torch.from_numpy(rs.dirichlet([0.3] * 4, size=L).T) for i, L in enumerate([6, 9, 12, 15, 8, 10])}
+        L = 40
+        seq = rs.randint(4, size=L)
+        seq[17] = 0
+        X = torch.zeros(2, 4, L, dtype=torch.float64)
+        X[0, seq, numpy.arange(L)] = 1
+        X[1] = X[0]
+        X[1, :, 17] = 0
+        seqlets = pandas.DataFrame({"example_idx": [0, 1, 0, 1], "start": [10, 10, 4, 14], "end": [24, 24, 15, 30]})
+        run_ = lambda rows, **kw: tuple(v.numpy() for v in annotate_seqlets(X, seqlets.iloc[rows], motifs, **kw))
+        for kw in (dict(n_nearest=1), dict(n_nearest=3), dict(n_nearest=2, n_target_bins=None, n_jobs=2)):
+            alone = [run_([i], **kw) for i in range(4)]
+            for rows in ([0, 1, 2, 3], [3, 2, 1, 0], [1, 0], [1, 1, 0, 0, 3]):
+                idxs, pv = run_(rows, **kw)
+                for k, rr in enumerate(rows):
+                    if not numpy.array_equal(pv[k], alone[rr][1][0]) or not numpy.array_equal(idxs[k], alone[rr][0][0]):
+                        return True, "annotation of seqlet %d changes when co-annotated with %s" % (rr, rows)
+        return False, "ok"
+    return None
+
+
 def replay(r):
     C.real_tangermeme()
     import numpy
     from tangermeme.tools.tomtom import tomtom
+    if r.get("mode") in ("nearest_sym", "many", "annotate"):
+        return _replay_extra(r)
     for seed in [r.get("seed", 0)] + list(range(12)):
         qs, ts = case(seed)
         Qs = [numpy.array(q).T.copy() for q in qs]
@@ -158,6 +216,82 @@ def worker(cfg):
                 ctx.stats.discharged += 1
                 if numba_s.get_num_threads() != 1:
                     add("tomtom:thread-count-not-restored", "numba thread count not restored after tomtom(n_jobs=%d)" % cfg["n_jobs"])
+            elif mode == "many":
+                # more queries than any internal block size: a late query must equal itself processed alone
+                import numpy as _np
+                rng = _np.random.RandomState(cfg["seed"])
+                many = [[[float(v) for v in rng.dirichlet([1, 1, 1, 1])] for _ in range(1 + (k % 2))] for k in range(cfg["n_queries"])]
+                tsm = [arr(t) for t in ts[:2]]
+                numba_s.get_thread_id = lambda: 0
+                tt.numba.get_thread_id = numba_s.get_thread_id
+                call = lambda qq: tt.tomtom([arr(q_) for q_ in qq], tsm, n_score_bins=cfg["n_score_bins"], n_median_bins=50, n_target_bins=None,
+                                           n_cache=cfg.get("n_cache", 30), reverse_complement=rc, n_jobs=1).a
+                full = call(many)
+                for k in cfg["probe"]:
+                    alone = call([many[k]])
+                    ctx.stats.obligations += 1
+                    if T.has_sym(full) or not np.array_equal(np.array(full[:, k].tolist(), dtype=float), np.array(alone[:, 0].tolist(), dtype=float)):
+                        add("tomtom:depends-on-co-processed-queries", "query %d of %d gives a different result than when processed alone" % (k, len(many)))
+                        return "returned"
+                    ctx.stats.discharged += 1
+            elif mode == "annotate":
+                # annotate_seqlets: the annotation of a seqlet must not depend on the other seqlets of the call or their order
+                ann = ld.load("annotate")
+                torch_s = shims["torch"]
+                L_ = 8
+                x0 = [0, 1, 2, 3, 0, 1, 2, 3]
+                x1 = list(x0)
+                x1[4] = -1                                    # same sequence with an unknown character where the first has 'A'
+                X = C.onehot_from_chars(np.array([x0, x1], dtype=object), 4, dtype="float64")
+                rows = [(0, 3, 6), (1, 3, 6), (0, 0, 3), (1, 4, 7)]
+                DataFrame = shims["pandas"].DataFrame
+                motifs = {"m%d" % k: T.Tensor(np.array(t, dtype=object).T.copy(), dtype="float64") for k, t in enumerate(ts)}
+                numba_s.get_thread_id = lambda: 0
+                tt.numba.get_thread_id = numba_s.get_thread_id
+
+                def annot(sel):
+                    df = DataFrame({"example_idx": [rows[r_][0] for r_ in sel], "start": [rows[r_][1] for r_ in sel], "end": [rows[r_][2] for r_ in sel]})
+                    idxs, pv = ann.annotate_seqlets(X, df, motifs, n_nearest=cfg.get("n_nearest", 2), n_jobs=1, n_score_bins=cfg["n_score_bins"], n_median_bins=50,
+                                                    n_target_bins=None, n_cache=30, reverse_complement=rc)
+                    return idxs.a, pv.a
+                alone = [annot([r_]) for r_ in range(len(rows))]
+                for sel in ([0, 1, 2, 3], [3, 2, 1, 0], [1, 0], [1, 1, 0]):
+                    idxs, pv = annot(sel)
+                    for k, r_ in enumerate(sel):
+                        ctx.stats.obligations += 1
+                        same = np.array_equal(np.array(pv[k].tolist(), dtype=float), np.array(alone[r_][1][0].tolist(), dtype=float)) and \
+                            [int(v) for v in idxs[k]] == [int(v) for v in alone[r_][0][0]]
+                        if not same or T.has_sym(pv):
+                            add("annotate_seqlets:depends-on-co-annotated-seqlets", "annotation of seqlet %d differs when annotated together with %s" % (r_, sel))
+                            return "returned"
+                        ctx.stats.discharged += 1
+            elif mode == "nearest_sym":
+                # the n_nearest selection statement of _tomtom on ARBITRARY per-target results (p-values, scores, ... symbolic)
+                import ast as _ast
+                nT, nn_ = cfg["n_targets"], cfg["n_nearest"]
+                within = lambda nd, text: isinstance(nd, _ast.For) and "prange(len(Q_lens))" in text.split("\n")[0]
+                is_sel = lambda st, text: isinstance(st, _ast.If) and text.split("\n")[0].strip().startswith("if n_nearest == -1")
+                blk, info = ld.slice_function("tools.tomtom", "_tomtom", is_sel, is_sel, ["results", "_results", "pid", "i", "n_in_targets", "n_nearest"], ["results"], within=within)
+                R_ = np.empty((1, nT, 5), dtype=object)
+                for c_ in np.ndindex(1, nT, 5):
+                    R_[c_] = core.Real("res_%d_%d" % (c_[1], c_[2]))
+                for t_ in range(nT):
+                    ctx.assume(s_and(R_[0, t_, 0] >= 0, R_[0, t_, 0] <= 1, R_[0, t_, 1] >= 0, R_[0, t_, 1] <= 100))
+                outp = T.NDArray(np.zeros((1, nn_, 6), dtype=object), dtype="float64")
+                (got,) = blk(outp, T.NDArray(R_.copy(), dtype="float64"), 0, 0, nT, nn_)
+                idx = [got.a[0, k, 5] for k in range(nn_)]
+                cl = []
+                for k in range(nn_):
+                    cl.append(s_or(*[s_and(idx[k] == t_, *[got.a[0, k, c_] == R_[0, t_, c_] for c_ in range(5)]) for t_ in range(nT)]))   # fields belong to the reported index
+                    if k + 1 < nn_:
+                        cl.append(got.a[0, k, 0] <= got.a[0, k + 1, 0])                                                               # ascending
+                        cl.append(idx[k] != idx[k + 1])
+                for t_ in range(nT):          # every target not returned has a p-value >= the largest returned one
+                    cl.append(s_or(s_or(*[idx[k] == t_ for k in range(nn_)]), R_[0, t_, 0] >= got.a[0, nn_ - 1, 0]))
+                cl.append(s_and(*[idx[a_] != idx[b_] for a_ in range(nn_) for b_ in range(a_ + 1, nn_)]))
+                m = ctx.prove(s_and(*cl), "n_nearest = the n smallest p-values, ascending, with matching fields and indices")
+                if m is not None:
+                    add("tomtom:n-nearest", "the n_nearest selection does not return the n smallest p-values in ascending order with matching fields and indices")
             elif mode == "nearest":
                 base, _ = run(ctx, list(range(len(qs))), 1)
                 nn_ = cfg["n_nearest"]
@@ -211,20 +345,27 @@ def configs(tier):
         cf.append(dict(mode="threads", seed=1, rc=False, n_score_bins=6, n_jobs=3))
     for seed in ((1,) if q else (1, 3, 5)):
         cf.append(dict(mode="nearest", seed=seed, rc=True, n_score_bins=6, n_nearest=2))
+    cf.append(dict(mode="nearest_sym", seed=0, rc=False, n_score_bins=6, n_targets=3, n_nearest=2))
+    cf.append(dict(mode="annotate", seed=1, rc=False, n_score_bins=5, n_nearest=2))
+    cf.append(dict(mode="many", seed=2, rc=False, n_score_bins=4, n_queries=66, probe=[64, 65]))
+    if not q:
+        cf.append(dict(mode="nearest_sym", seed=0, rc=False, n_score_bins=6, n_targets=4, n_nearest=3))
+        cf.append(dict(mode="annotate", seed=3, rc=True, n_score_bins=5, n_nearest=1))
+        cf.append(dict(mode="many", seed=4, rc=False, n_score_bins=4, n_queries=130, probe=[64, 128, 129]))
     return cf
 
 
 def main(tier, seed):
     rep = harness.Report(PROP, tier, seed)
     ld, _ = C.fresh_env()
-    rep.functions = [ld.func_info("tools.tomtom", f) for f in ("tomtom", "_tomtom", "_integer_distances_and_histogram", "_binned_median", "_p_value_backgrounds", "_pairwise_max", "_p_values", "_merge_rc_results")]
+    rep.functions = [ld.func_info("annotate", "annotate_seqlets")] + [ld.func_info("tools.tomtom", f) for f in ("tomtom", "_tomtom", "_integer_distances_and_histogram", "_binned_median", "_p_value_backgrounds", "_pairwise_max", "_p_values", "_merge_rc_results")]
     cf = configs(tier)
     rep.bounds = {"pwm_sets": "coarse-grid PWMs (entries in {0, .25, .5, .75, 1}), 3 queries of length 1-3, 2-3 targets of length 1-3, seeds %s" % sorted({c["seed"] for c in cf}),
                   "histories": "each query alone vs lists [0,1,2], [2,1,0], [1,2], [2,2,0] on one reused scratch", "threads": "2 (3 in thorough): every assignment of iterations to thread ids",
                   "n_score_bins": 6}
     rep.assumptions = ["scratch from numpy.empty is arbitrary memory; its reuse across queries of one thread is modelled by the real sequential execution on the same buffers",
                        "numba's contract: concurrently running prange iterations have distinct get_thread_id(); actual OS scheduling / intra-iteration races are outside the claim",
-                       "query / target values are concrete (float distance kernel); column hashing (n_target_bins) disabled; annotate_seqlets only through tomtom"]
+                       "query / target values are concrete (float distance kernel) except in the n_nearest selection obligation, where the per-target results are arbitrary; column hashing (n_target_bins) disabled"]
     rep.absorb(harness.run_configs("checks.C13", "worker", cf))
     rep.witness_ok = rep.stats["returned"] > 0
     return harness.finish(rep)
